@@ -1,1 +1,731 @@
-fn main() {}
+//! C20 driver: run the real `warcraft-rs` binary on the cases TLC enumerated (specs/Gen_Cli.tla) and
+//! record, per process run, the exit status, what the tool printed about success/failure, the files it
+//! produced (tokens + the library's verdict on them), the facts it printed, and the library's own view
+//! of the same input.  Nothing is decided here: specs/Trace_Cli.tla evaluates the obligations.
+//!
+//! usage: c20 <cases.ndjson> <trace.ndjson> <path-to-warcraft-rs>
+mod valid;
+
+use std::path::{Path, PathBuf};
+use std::process::{Command, Stdio};
+use std::time::{Duration, Instant};
+use wow_mpq::{Archive, ArchiveBuilder, FormatVersion};
+use wverif_common::*;
+
+struct RunOut {
+    exit: i64,
+    stdout: String,
+    stderr: String,
+}
+
+fn run_cli(cli: &Path, cwd: &Path, args: &[String]) -> RunOut {
+    let mut child = Command::new(cli)
+        .args(args)
+        .current_dir(cwd)
+        .env_remove("RUST_LOG")
+        .env_remove("RUST_BACKTRACE")
+        .env("NO_COLOR", "1")
+        .stdin(Stdio::null())
+        .stdout(Stdio::piped())
+        .stderr(Stdio::piped())
+        .spawn()
+        .unwrap_or_else(|e| tool_error(&format!("cannot start {cli:?}: {e}")));
+    let mut so = child.stdout.take().unwrap();
+    let mut se = child.stderr.take().unwrap();
+    let t1 = std::thread::spawn(move || {
+        let mut b = Vec::new();
+        let _ = std::io::Read::read_to_end(&mut so, &mut b);
+        b
+    });
+    let t2 = std::thread::spawn(move || {
+        let mut b = Vec::new();
+        let _ = std::io::Read::read_to_end(&mut se, &mut b);
+        b
+    });
+    let t0 = Instant::now();
+    let exit = loop {
+        match child.try_wait() {
+            Ok(Some(st)) => {
+                break match st.code() {
+                    Some(c) => c as i64,
+                    None => 1000 + std::os::unix::process::ExitStatusExt::signal(&st).unwrap_or(0) as i64,
+                }
+            }
+            Ok(None) => {
+                if t0.elapsed() > Duration::from_secs(120) {
+                    let _ = child.kill();
+                    let _ = child.wait();
+                    break -1;
+                }
+                std::thread::sleep(Duration::from_millis(2));
+            }
+            Err(e) => tool_error(&format!("wait: {e}")),
+        }
+    };
+    RunOut {
+        exit,
+        stdout: String::from_utf8_lossy(&t1.join().unwrap_or_default()).into_owned(),
+        stderr: String::from_utf8_lossy(&t2.join().unwrap_or_default()).into_owned(),
+    }
+}
+
+/// Did the tool itself print a failure verdict?  (only asked of `validate` sub-commands)
+fn says_fail(cmd: &str, r: &RunOut) -> bool {
+    if cmd != "validate" {
+        return false;
+    }
+    r.stdout.lines().chain(r.stderr.lines()).any(|l| {
+        let low = l.to_lowercase();
+        (l.contains('\u{2717}') || l.contains('\u{274c}')) && (low.contains("fail") || low.contains("invalid") || low.contains("error"))
+    })
+}
+
+fn damage(bytes: &[u8], class: &str, rng: &mut Rng) -> Vec<u8> {
+    let n = bytes.len();
+    let mut b = bytes.to_vec();
+    match class {
+        "empty" => b.clear(),
+        "trunc_head" => b.truncate(3.min(n.saturating_sub(1))),
+        "trunc_mid" => b.truncate(n / 2),
+        "trunc_tail" => b.truncate(n.saturating_sub(1 + rng.below(8.min(n as u64 / 4).max(1)) as usize)),
+        "corrupt_magic" => {
+            for x in b.iter_mut().take(4) {
+                *x ^= 0xFF;
+            }
+        }
+        "corrupt_size" => {
+            if n >= 8 {
+                b[4..8].copy_from_slice(&0xFFFF_FFF0u32.to_le_bytes());
+            }
+        }
+        "corrupt_rand" => {
+            for _ in 0..6 {
+                let i = rng.below(64.min(n as u64).max(1)) as usize;
+                if i < n {
+                    b[i] ^= 1 << rng.below(8);
+                }
+            }
+        }
+        _ => {}
+    }
+    b
+}
+
+fn lib3(s: &str) -> &'static str {
+    if s == "ok" {
+        "ok"
+    } else if s.starts_with("panic") {
+        "panic"
+    } else {
+        "err"
+    }
+}
+
+fn s(x: &str) -> String {
+    x.to_string()
+}
+fn p(x: &Path) -> String {
+    x.to_string_lossy().into_owned()
+}
+
+#[allow(clippy::too_many_arguments)]
+fn run_event(
+    case: &str, fam: &str, cmd: &str, kind: &str, input: &str, lib: &str, libval: &str, missing: bool, skip: bool, opt: i64,
+    r: &RunOut, want: &[(String, String)], got: &[(String, String)], outs: &[String], need_outs: bool, view: &[String], libview: &[String],
+) -> Value {
+    let pair = |v: &[(String, String)]| Value::Array(v.iter().map(|(a, b)| json!([a, b])).collect());
+    let tail: String = r.stderr.lines().rev().find(|l| l.contains("Error") || l.contains("panicked")).map(normalise_digits).unwrap_or_default();
+    json!({"ev":"Run","case":case,"fam":fam,"cmd":cmd,"kind":kind,"input":input,"lib":lib,"libval":libval,"missing":missing,"skip":skip,
+        "opt":opt,"exit":r.exit,"says_fail":says_fail(cmd, r),"want":pair(want),"got":pair(got),"outs":outs,"need_outs":need_outs,
+        "view":view,"libview":libview,"err":tail,"stdout_tok":tok(r.stdout.as_bytes())})
+}
+
+// --------------------------------------------------------------------------------------------------
+// format families
+// --------------------------------------------------------------------------------------------------
+fn fmt_case(cli: &Path, dir: &Path, c: &Value, seed: u64) -> Vec<Value> {
+    let id = gi(c, "id").to_string();
+    let (fam, cmd, kind, input) = (gs(c, "fam"), gs(c, "cmd"), gs(c, "kind"), gs(c, "input"));
+    let opt = gi(c, "opt");
+    let variant = gi(c, "variant") as u32;
+    let mut rng = Rng::derive(seed, &format!("c20:{kind}:{variant}:{input}"));
+    let tmp = dir.join("tmp");
+    std::fs::create_dir_all(&tmp).unwrap();
+    let reset = json!({"ev":"Reset","case":id,"mode":"fmt","fam":fam,"cmd":cmd,"kind":kind,"input":input,"variant":variant,"opt":opt});
+    let base = match input {
+        "flagged" => valid::make_invalid_but_parseable(kind, &mut rng).ok_or_else(|| s("no flagged file for this kind")),
+        _ => valid::make_valid(kind, variant, &mut rng),
+    };
+    let base = match base {
+        Ok(b) => b,
+        Err(e) => tool_error(&format!("cannot make a valid {kind} file (variant {variant}): {e}")),
+    };
+    let bytes = if input == "valid" || input == "flagged" || input == "nonexistent" { base } else { damage(&base, input, &mut rng) };
+    let ext = valid::extension(kind);
+    let file = dir.join(format!("in.{ext}"));
+    let (lib, libval) = if input == "nonexistent" {
+        (s("n/a"), s("n/a"))
+    } else {
+        std::fs::write(&file, &bytes).unwrap();
+        let refkind = if (fam, cmd, kind) == ("wmo", "convert", "wmo_root") { "wmo_conv" } else { kind };
+        let (l, st, n) = lib_verdicts(refkind, &file, &tmp);
+        let lv = if l != "ok" {
+            s("n/a")
+        } else {
+            match kind {
+                "m2" | "anim" | "wdl" => s(if st == "ok" { "ok" } else if st == "err" { "fail" } else { "n/a" }),
+                "blp" => s(if n > 0 { "fail" } else { "ok" }),
+                _ => s("n/a"),
+            }
+        };
+        (l, lv)
+    };
+    let f = p(&file);
+    let out = dir.join(format!("out.{ext}"));
+    let o = p(&out);
+    let schema = dir.join("schema.yaml");
+    if let Some(y) = valid::schema_yaml(kind, variant) {
+        std::fs::write(&schema, y).unwrap();
+    }
+    let sc = p(&schema);
+    let mut outs_paths: Vec<(PathBuf, String)> = Vec::new(); // (path, kind of the produced file)
+    let mut a: Vec<String> = vec![s(fam), s(cmd)];
+    match (fam, cmd) {
+        ("dbc", "info") => a.push(f),
+        ("dbc", "validate") => a.extend([f, s("--schema"), sc]),
+        ("dbc", "list") => {
+            a.push(f);
+            if opt == 1 {
+                a.extend([s("--schema"), sc]);
+            }
+        }
+        ("dbc", "export") => {
+            let e = dir.join(if opt == 1 { "out.csv" } else { "out.json" });
+            a.extend([f, s("--schema"), sc, s("--format"), s(if opt == 1 { "csv" } else { "json" }), s("--output"), p(&e)]);
+            outs_paths.push((e, s("text")));
+        }
+        ("dbc", "analyze") => {
+            a.push(f);
+            if opt == 1 {
+                a.extend([s("--schema"), sc]);
+            }
+        }
+        ("dbc", "discover") => {
+            a.push(f);
+            if opt == 1 {
+                a.push(s("--yaml"));
+            }
+        }
+        ("blp", "info") => {
+            a.push(f);
+            if opt == 1 {
+                a.push(s("--all"));
+            }
+        }
+        ("blp", "validate") => {
+            a.push(f);
+            if opt == 1 {
+                a.push(s("--strict"));
+            }
+        }
+        ("blp", "convert") => {
+            if opt == 1 {
+                a.extend([f, o.clone(), s("--blp-version"), s("blp2"), s("--blp-format"), s("dxt5")]);
+                outs_paths.push((out.clone(), s("blp")));
+            } else {
+                let png = dir.join("out.png");
+                a.extend([f, p(&png)]);
+                outs_paths.push((png, s("png")));
+            }
+        }
+        ("m2", "info") | ("m2", "skin-info") | ("m2", "anim-info") | ("wmo", "info") | ("adt", "info") => {
+            a.push(f);
+            if opt == 1 {
+                a.push(s("--detailed"));
+            }
+        }
+        ("m2", "validate") | ("wmo", "validate") => {
+            a.push(f);
+            if opt == 1 {
+                a.push(s("-w"));
+            }
+        }
+        ("m2", "tree") | ("wmo", "tree") | ("adt", "tree") | ("wdt", "tree") | ("wdl", "tree") | ("m2", "blp-info") | ("wdl", "info") => a.push(f),
+        ("m2", "convert") => {
+            a.extend([f, o.clone(), s("--version"), s(if opt == 1 { "1.12.1" } else { "Cataclysm" })]);
+            outs_paths.push((out.clone(), s("m2")));
+        }
+        ("m2", "skin-convert") => {
+            a.extend([f, o.clone(), s("--version"), s(if opt == 1 { "WotLK" } else { "Cataclysm" })]);
+            outs_paths.push((out.clone(), s("skin")));
+        }
+        ("m2", "anim-convert") => {
+            a.extend([f, o.clone(), s("--version"), s(if opt == 1 { "WotLK" } else { "Legion" })]);
+            outs_paths.push((out.clone(), s("anim")));
+        }
+        ("wmo", "convert") => {
+            a.extend([f, o.clone(), s("--version"), s(if opt == 1 { "WotLK" } else { "Cataclysm" })]);
+            outs_paths.push((out.clone(), s(kind)));
+        }
+        ("wmo", "list") => {
+            a.push(f);
+            if opt == 1 {
+                a.extend([s("--component"), s("groups")]);
+            }
+        }
+        ("wmo", "export") => a.extend([f, s("--output"), p(&dir.join("export"))]),
+        ("wmo", "extract-groups") => a.extend([f, s("--output"), p(&dir.join("groups"))]),
+        ("adt", "validate") => {
+            a.push(f);
+            if opt == 1 {
+                a.extend([s("--level"), s("strict"), s("--warnings")]);
+            }
+        }
+        ("adt", "convert") => {
+            a.extend([f, o.clone(), s("--to"), s(if opt == 1 { "cataclysm" } else { "wotlk" })]);
+            outs_paths.push((out.clone(), s("adt")));
+        }
+        ("wdt", "info") => {
+            a.push(f);
+            if opt == 1 {
+                a.push(s("--detailed"));
+            }
+        }
+        ("wdt", "validate") => {
+            a.push(f);
+            if opt == 1 {
+                a.push(s("-w"));
+            }
+        }
+        ("wdt", "tiles") => {
+            a.push(f);
+            if opt == 1 {
+                a.extend([s("--format"), s("csv")]);
+            }
+        }
+        ("wdt", "convert") => {
+            a.extend([f, o.clone(), s("--from-version"), s("WotLK"), s("--to-version"), s(if opt == 1 { "Classic" } else { "Cataclysm" })]);
+            outs_paths.push((out.clone(), s("wdt")));
+        }
+        ("wdl", "validate") => a.push(f),
+        ("wdl", "convert") => {
+            a.extend([f, o.clone(), s("--to"), s(if opt == 1 { "WotLK" } else { "Legion" })]);
+            outs_paths.push((out.clone(), s("wdl")));
+        }
+        _ => tool_error(&format!("no argv rule for {fam} {cmd}")),
+    }
+    let r = run_cli(cli, dir, &a);
+    let mut outs = Vec::new();
+    for (path, k) in &outs_paths {
+        match std::fs::read(path) {
+            Err(_) => outs.push(s("missing")),
+            Ok(b) => outs.push(match k.as_str() {
+                "text" => s("ok"), // an export of zero records may legitimately be empty: existence is what exit 0 promises
+                "png" => s(if b.starts_with(&[0x89, b'P', b'N', b'G']) && b.len() > 50 { "ok" } else { "err" }),
+                k => lib_verdicts(k, path, &tmp).0,
+            }),
+        }
+    }
+    let need = !outs_paths.is_empty();
+    vec![reset, run_event(&id, fam, cmd, kind, input, &lib, &libval, false, false, opt, &r, &[], &[], &outs, need, &[], &[])]
+}
+
+// --------------------------------------------------------------------------------------------------
+// mpq
+// --------------------------------------------------------------------------------------------------
+fn content(rng: &mut Rng, i: usize) -> Vec<u8> {
+    match i % 4 {
+        0 => gen_content("text", 200 + rng.below(3000) as usize, rng),
+        1 => gen_content("random", 1 + rng.below(2000) as usize, rng),
+        2 => Vec::new(),
+        _ => gen_content("mixed", 64 + rng.below(3500) as usize, rng),
+    }
+}
+
+/// The library's view of an archive: (names as listed, (name, token) of every readable listed file, unreadable count)
+fn lib_view(path: &Path) -> Result<(Vec<String>, Vec<(String, String)>, usize, usize), String> {
+    match guarded(|| -> Result<_, wow_mpq::Error> {
+        let mut ar = Archive::open(path)?;
+        let names: Vec<String> = ar.list()?.into_iter().map(|e| e.name).collect();
+        let count = ar.get_info()?.file_count;
+        let mut files = Vec::new();
+        let mut bad = 0;
+        for n in &names {
+            match ar.read_file(n) {
+                Ok(b) => files.push((n.clone(), tok(&b))),
+                Err(_) => bad += 1,
+            }
+        }
+        Ok((names, files, bad, count))
+    }) {
+        Outcome::Done(Ok(v)) => Ok(v),
+        Outcome::Done(Err(e)) => Err(format!("err:{}", variant_name(&e))),
+        Outcome::Panic(m) => Err(format!("panic:{m}")),
+        Outcome::Hang => Err(s("hang")),
+    }
+}
+
+fn dir_files(root: &Path, rel: &Path, out: &mut Vec<(String, String)>) {
+    if let Ok(rd) = std::fs::read_dir(root.join(rel)) {
+        for e in rd.flatten() {
+            let r = rel.join(e.file_name());
+            if e.path().is_dir() {
+                dir_files(root, &r, out);
+            } else if let Ok(b) = std::fs::read(e.path()) {
+                out.push((r.to_string_lossy().replace('/', "\\"), tok(&b)));
+            }
+        }
+    }
+}
+
+fn on_disk_name(mpq_name: &str, preserve: bool) -> String {
+    if preserve {
+        mpq_name.replace('/', "\\")
+    } else {
+        mpq_name.rsplit(['\\', '/']).next().unwrap_or(mpq_name).to_string()
+    }
+}
+
+fn view_of_list(stdout: &str) -> Vec<String> {
+    let mut v: Vec<String> = stdout.lines().map(|l| l.trim().to_string()).filter(|l| !l.is_empty()).collect();
+    v.sort();
+    v
+}
+fn view_of_info(stdout: &str) -> Vec<String> {
+    stdout.lines().filter_map(|l| l.trim().strip_prefix("Number of files: ").map(|n| format!("count:{}", n.trim()))).collect()
+}
+
+fn mpq1_case(cli: &Path, dir: &Path, c: &Value, seed: u64) -> Vec<Value> {
+    let id = gi(c, "id").to_string();
+    let (cmd, input) = (gs(c, "cmd"), gs(c, "input"));
+    let opt = gi(c, "opt");
+    let variant = gi(c, "variant");
+    let mut rng = Rng::derive(seed, &format!("c20:mpq1:{variant}:{input}:{cmd}"));
+    let reset = json!({"ev":"Reset","case":id,"mode":"mpq1","fam":"mpq","cmd":cmd,"kind":"mpq","input":input,"variant":variant,"opt":opt});
+    let arch = dir.join("a.mpq");
+    let names = ["readme.txt", "data\\table.bin", "data\\sub\\empty.dat", "Interface\\Icons\\x.blp", "zz.txt"];
+    let nfiles = 2 + (variant as usize % 4);
+    let mut b = ArchiveBuilder::new().version(if variant % 2 == 0 { FormatVersion::V1 } else { FormatVersion::V2 });
+    for (i, n) in names.iter().take(nfiles).enumerate() {
+        let data = if i == 0 { gen_content("text", 1500 + rng.below(1500) as usize, &mut rng) } else { content(&mut rng, i) };
+        b = b.add_file_data(data, n);
+    }
+    if let Err(e) = b.build(&arch) {
+        tool_error(&format!("cannot build the reference archive: {e}"));
+    }
+    let mut bytes = std::fs::read(&arch).unwrap();
+    if input == "flagged" {
+        // ruin the stored (zlib) data of readme.txt: the archive opens and lists, that file cannot be read
+        let info = Archive::open(&arch).and_then(|a| a.find_file("readme.txt")).ok().flatten();
+        let Some(fi) = info else { tool_error("reference archive lacks readme.txt") };
+        let (st, len) = (fi.file_pos as usize, fi.compressed_size as usize);
+        for x in bytes[st + 1..st + len].iter_mut() {
+            *x = 0xFF;
+        }
+    } else if input != "valid" && input != "nonexistent" {
+        bytes = damage(&bytes, input, &mut rng);
+    }
+    if input == "nonexistent" {
+        let _ = std::fs::remove_file(&arch);
+    } else {
+        std::fs::write(&arch, &bytes).unwrap();
+    }
+    let view = if input == "nonexistent" { Err(s("n/a")) } else { lib_view(&arch) };
+    let (lib, libval) = match &view {
+        Ok((_, _, bad, _)) => (s("ok"), s(if *bad > 0 { "fail" } else { "ok" })),
+        Err(e) if e == "n/a" => (s("n/a"), s("n/a")),
+        Err(e) => (s(lib3(e)), s("n/a")),
+    };
+    let af = p(&arch);
+    let outd = dir.join("out");
+    let mut a: Vec<String> = vec![s("mpq"), s(cmd)];
+    let mut want = Vec::new();
+    let mut got = Vec::new();
+    let mut outs = Vec::new();
+    let mut need = false;
+    let (mut vw, mut lv) = (Vec::new(), Vec::new());
+    let preserve = opt == 1;
+    match cmd {
+        "info" => {
+            a.push(af);
+            if opt == 1 {
+                a.push(s("--show-hash-table"));
+            }
+        }
+        "validate" => {
+            a.push(af);
+            if opt == 1 {
+                a.push(s("--check-checksums"));
+            }
+        }
+        "list" => a.push(af),
+        "tree" => {
+            a.extend([af, s("--no-color")]);
+            if opt == 1 {
+                a.push(s("--compact"));
+            }
+        }
+        "debug" => {
+            a.push(af);
+            if opt == 1 {
+                a.push(s("--all"));
+            }
+        }
+        "patch-chain" => {
+            a.push(af);
+            if opt == 1 {
+                a.push(s("--detailed"));
+            }
+        }
+        "extract" => {
+            a.extend([af, s("-o"), p(&outd)]);
+            if preserve {
+                a.push(s("--preserve-paths"));
+            }
+        }
+        "rebuild" => {
+            a.extend([af, p(&dir.join("rebuilt.mpq"))]);
+            if opt == 1 {
+                a.push(s("--verify"));
+            }
+        }
+        "compare" => {
+            let other = dir.join("b.mpq");
+            if input != "nonexistent" {
+                std::fs::write(&other, &bytes).unwrap();
+            }
+            a.extend([af, p(&other)]);
+            if opt == 1 {
+                a.push(s("--content-check"));
+            }
+        }
+        "create" => {
+            // `input` describes the file to add
+            let src = dir.join("payload.bin");
+            if input == "valid" {
+                std::fs::write(&src, content(&mut rng, 1)).unwrap();
+            }
+            let _ = std::fs::remove_file(&arch);
+            a.extend([af, s("--add"), p(&src)]);
+            if opt == 1 {
+                a.push(s("--with-listfile"));
+            }
+        }
+        _ => tool_error(&format!("no argv rule for mpq {cmd}")),
+    }
+    let r = run_cli(cli, dir, &a);
+    match cmd {
+        "list" => {
+            vw = view_of_list(&r.stdout);
+            if let Ok((n, _, _, _)) = &view {
+                lv = n.clone();
+                lv.sort();
+            }
+        }
+        "info" => {
+            vw = view_of_info(&r.stdout);
+            if let Ok((_, _, _, cnt)) = &view {
+                lv = vec![format!("count:{cnt}")];
+            }
+        }
+        "extract" => {
+            if let Ok((_, files, _, _)) = &view {
+                want = files.iter().map(|(n, t)| (on_disk_name(n, preserve), t.clone())).collect();
+            }
+            dir_files(&outd, Path::new(""), &mut got);
+        }
+        "rebuild" => {
+            need = true;
+            let t = dir.join("rebuilt.mpq");
+            if let Ok((_, files, _, _)) = &view {
+                want = files.iter().filter(|(n, _)| !n.starts_with('(')).cloned().collect();
+            }
+            match lib_view(&t) {
+                Ok((_, files, _, _)) => {
+                    got = files;
+                    outs.push(s("ok"));
+                }
+                Err(e) => outs.push(if t.exists() { s(lib3(&e)) } else { s("missing") }),
+            }
+        }
+        "create" => {
+            need = true;
+            match lib_view(&arch) {
+                Ok((_, files, _, _)) => {
+                    got = files;
+                    outs.push(s("ok"));
+                }
+                Err(e) => outs.push(if arch.exists() { s(lib3(&e)) } else { s("missing") }),
+            }
+            if input == "valid" {
+                want.push((s("payload.bin"), tok(&std::fs::read(dir.join("payload.bin")).unwrap())));
+            }
+        }
+        _ => {}
+    }
+    let (lib, libval) = if cmd == "create" { (s(if input == "valid" { "ok" } else { "n/a" }), s("n/a")) } else { (lib, libval) };
+    vec![reset, run_event(&id, "mpq", cmd, "mpq", input, &lib, &libval, false, false, opt, &r, &want, &got, &outs, need, &vw, &lv)]
+}
+
+fn pipe_case(cli: &Path, dir: &Path, c: &Value, seed: u64) -> Vec<Value> {
+    let id = gi(c, "id").to_string();
+    let (files, version, compression, explicit) = (gs(c, "files"), gs(c, "version"), gs(c, "compression"), gs(c, "explicit"));
+    let (listfile, preserve, skip, threads) = (gb(c, "listfile"), gb(c, "preserve"), gb(c, "skip"), gi(c, "threads"));
+    let mut rng = Rng::derive(seed, &format!("c20:pipe:{id}"));
+    let mut evs = vec![json!({"ev":"Reset","case":id,"mode":"pipe","fam":"mpq","cmd":"pipeline","kind":"mpq","input":"valid","files":files,
+        "version":version,"compression":compression,"listfile":listfile,"threads":threads,"preserve":preserve,"explicit":explicit,"skip":skip})];
+    let ind = dir.join("in");
+    std::fs::create_dir_all(&ind).unwrap();
+    let n = match files {
+        "one" => 1,
+        "few" => 4,
+        _ => 13,
+    };
+    let mut inputs: Vec<(String, String)> = Vec::new();
+    let arch = dir.join("made.mpq");
+    let mut a: Vec<String> = vec![s("mpq"), s("create"), p(&arch)];
+    for i in 0..n {
+        let name = format!("f{i:02}{}", [".txt", ".bin", ".dat", ".blp"][i % 4]);
+        let data = content(&mut rng, if n == 1 { 3 } else { i });
+        std::fs::write(ind.join(&name), &data).unwrap();
+        inputs.push((name.clone(), tok(&data)));
+        a.extend([s("--add"), p(&ind.join(&name))]);
+    }
+    a.extend([s("--version"), s(version), s("--compression"), s(compression)]);
+    if listfile {
+        a.push(s("--with-listfile"));
+    }
+    let none: [String; 0] = [];
+    // create
+    let r = run_cli(cli, dir, &a);
+    let view = lib_view(&arch);
+    let (got, outs) = match &view {
+        Ok((_, f, _, _)) => (f.clone(), vec![s("ok")]),
+        Err(e) => (Vec::new(), vec![if arch.exists() { s(lib3(e)) } else { s("missing") }]),
+    };
+    evs.push(run_event(&id, "mpq", "create", "mpq", "valid", "ok", "n/a", false, false, 0, &r, &inputs, &got, &outs, true, &none, &none));
+    let Ok((names, libfiles, bad, count)) = view else { return evs };
+    let libval = if bad > 0 { "fail" } else { "ok" };
+    // list, info
+    let r = run_cli(cli, dir, &[s("mpq"), s("list"), p(&arch)]);
+    let mut lv = names.clone();
+    lv.sort();
+    evs.push(run_event(&id, "mpq", "list", "mpq", "valid", "ok", libval, false, false, 0, &r, &[], &[], &none, false, &view_of_list(&r.stdout), &lv));
+    let r = run_cli(cli, dir, &[s("mpq"), s("info"), p(&arch)]);
+    evs.push(run_event(&id, "mpq", "info", "mpq", "valid", "ok", libval, false, false, 0, &r, &[], &[], &none, false, &view_of_info(&r.stdout), &[format!("count:{count}")]));
+    // extract
+    let outd = dir.join("x");
+    let mut a: Vec<String> = vec![s("mpq"), s("extract"), p(&arch), s("-o"), p(&outd)];
+    if preserve {
+        a.push(s("--preserve-paths"));
+    }
+    if skip {
+        a.push(s("--skip-errors"));
+    }
+    if threads > 0 {
+        a.extend([s("--threads"), threads.to_string()]);
+    }
+    let mut requested: Vec<String> = Vec::new();
+    let mut missing = false;
+    if explicit != "all" {
+        let k = (inputs.len() + 1) / 2;
+        requested = inputs.iter().take(k).map(|(n, _)| n.clone()).collect();
+        if explicit == "missing" {
+            requested.insert(requested.len() / 2, s("no\\such\\file.bin"));
+            missing = true;
+        }
+        a.extend(requested.iter().cloned());
+    }
+    let r = run_cli(cli, dir, &a);
+    let want: Vec<(String, String)> = libfiles
+        .iter()
+        .filter(|(n, _)| explicit == "all" || requested.iter().any(|q| q.eq_ignore_ascii_case(n)))
+        .map(|(n, t)| (on_disk_name(n, preserve), t.clone()))
+        .collect();
+    let mut got = Vec::new();
+    dir_files(&outd, Path::new(""), &mut got);
+    evs.push(run_event(&id, "mpq", "extract", "mpq", "valid", "ok", libval, missing, skip, threads, &r, &want, &got, &none, false, &none, &none));
+    evs
+}
+
+/// Library verdicts are computed in a child process (`c20 worker <kind> <file> <tmpdir>`): damaged input can make the
+/// library abort (huge allocation) or overflow the stack, which must not take the driver down.
+fn worker(kind: &str, file: &str, tmp: &str) -> ! {
+    install_quiet_panic_hook();
+    unsafe {
+        let lim = libc::rlimit { rlim_cur: 6 << 30, rlim_max: 6 << 30 };
+        libc::setrlimit(libc::RLIMIT_AS, &lim);
+    }
+    let bytes = std::fs::read(file).unwrap_or_default();
+    let tmp = Path::new(tmp);
+    // `wmo convert` reads root files with WmoParser::parse_root (not parse_wmo_with_metadata): its own entry point is the reference
+    let l = if kind == "wmo_conv" {
+        match guarded(|| wow_wmo::WmoParser::new().parse_root(&mut std::io::Cursor::new(&bytes)).map(|_| ())) {
+            Outcome::Done(Ok(())) => s("ok"),
+            Outcome::Done(Err(_)) => s("err"),
+            _ => s("panic"),
+        }
+    } else {
+        valid::lib_parse(kind, &bytes, tmp)
+    };
+    let (st, n) = if l == "ok" { valid::lib_validate(kind, &bytes, tmp) } else { (s("n/a"), 0) };
+    println!("VERDICT {} {} {}", lib3(&l), st.split(':').next().unwrap_or("n/a"), n);
+    std::process::exit(0);
+}
+
+/// (lib, validate status, count) for a file, via the worker child.
+fn lib_verdicts(kind: &str, file: &Path, tmp: &Path) -> (String, String, i64) {
+    let exe = std::env::current_exe().unwrap_or_else(|e| tool_error(&format!("current_exe: {e}")));
+    let out = Command::new(exe)
+        .args(["worker", kind, &p(file), &p(tmp)])
+        .stdin(Stdio::null())
+        .stderr(Stdio::null())
+        .output()
+        .unwrap_or_else(|e| tool_error(&format!("cannot start worker: {e}")));
+    let text = String::from_utf8_lossy(&out.stdout);
+    for l in text.lines() {
+        if let Some(rest) = l.strip_prefix("VERDICT ") {
+            let f: Vec<&str> = rest.split_whitespace().collect();
+            if f.len() == 3 {
+                return (s(f[0]), s(f[1]), f[2].parse().unwrap_or(0));
+            }
+        }
+    }
+    (s("panic"), s("n/a"), 0) // abort / signal / stack overflow of the library
+}
+
+fn main() {
+    let raw: Vec<String> = std::env::args().collect();
+    if raw.len() == 5 && raw[1] == "worker" {
+        worker(&raw[2], &raw[3], &raw[4]);
+    }
+    let a = args();
+    install_quiet_panic_hook();
+    if a.extra.is_empty() {
+        tool_error("usage: c20 <cases> <trace> <warcraft-rs binary>");
+    }
+    let cli = PathBuf::from(&a.extra[0]);
+    if !cli.is_file() {
+        tool_error(&format!("CLI binary {cli:?} not found"));
+    }
+    let cases = read_cases(&a.cases);
+    let trace = Trace::create(&a.trace);
+    let scratch = Scratch::new("c20");
+    let seed = seed();
+    par_for(cases.len(), ncpu().clamp(2, 10), |ci| {
+        let c = &cases[ci];
+        let dir = scratch.path.join(format!("k{}", gi(c, "id")));
+        std::fs::create_dir_all(&dir).unwrap();
+        let evs = match gs(c, "mode") {
+            "fmt" => fmt_case(&cli, &dir, c, seed),
+            "mpq1" => mpq1_case(&cli, &dir, c, seed),
+            "pipe" => pipe_case(&cli, &dir, c, seed),
+            m => tool_error(&format!("unknown case mode {m}")),
+        };
+        trace.block(evs);
+        if std::env::var("VERIF_KEEP").is_err() {
+            let _ = std::fs::remove_dir_all(&dir);
+        }
+    });
+    trace.flush();
+}
